@@ -5,3 +5,15 @@
 pub mod set_digest {
     pub use crate::hb::set_digest::*;
 }
+
+// One sub-module per verification component; each re-exports or wraps the internals its
+// correspondence check drives.
+pub mod buffer;
+pub mod joining;
+pub mod hangul;
+pub mod unicode;
+pub mod feature;
+pub mod tag;
+pub mod normalize;
+pub mod layout;
+pub mod morx;
